@@ -49,6 +49,8 @@ def j_ports(ps, extras):
 
 
 def j_type(t):
+    if t[0] == 'tother':
+        return {'<class>': t[1], 'name': scope_name(['Alias']), 'whatever': [1]}
     if t[0] == 'enum':
         return {'<class>': 'enum', 'name': scope_name(t[1]), 'fields': {'<class>': 'fields', 'elements': list(t[2])}}
     return {'<class>': 'subint', 'name': scope_name(t[1]), 'range': {'<class>': 'range', 'from': t[2], 'to': t[3]}}
